@@ -2,6 +2,7 @@ package simrt
 
 import (
 	"bytes"
+	"context"
 	"fmt"
 	"os"
 	"runtime"
@@ -422,6 +423,37 @@ func AfterFunc(d time.Duration, f func()) *time.Timer {
 		s.mu.Lock()
 		fires++
 		t := &task{id: append(append([]int(nil), base...), fires), name: "afterfunc", ch: make(chan int)}
+		s.nTasks++
+		s.mu.Unlock()
+		s.runTask(t, f)
+	})
+}
+
+// CtxAfterFunc is context.AfterFunc whose callback runs as a task with an id fixed at registration (child of the
+// registering task): all callbacks of one context start at the same moment, in goroutines the standard library creates.
+func CtxAfterFunc(ctx context.Context, f func()) (stop func() bool) {
+	s := cur.Load()
+	if s == nil {
+		return context.AfterFunc(ctx, f)
+	}
+	parent := s.lookup("")
+	var id []int
+	s.mu.Lock()
+	if parent != nil {
+		parent.spawned++
+		id = append(append([]int(nil), parent.id...), parent.spawned)
+	} else {
+		s.autoN++
+		id = []int{1 << 29, s.autoN}
+	}
+	s.mu.Unlock()
+	return context.AfterFunc(ctx, func() {
+		if cur.Load() != s {
+			f()
+			return
+		}
+		s.mu.Lock()
+		t := &task{id: id, name: "ctxafterfunc", ch: make(chan int)}
 		s.nTasks++
 		s.mu.Unlock()
 		s.runTask(t, f)
